@@ -269,28 +269,31 @@ end
 /- ---------------- recorded types of the result graph ---------------- -/
 
 section
-variable (sem : Op → List V → V) (inp : Nat → V) (dv : V) (rnd : Nat → List V → V) (tyv : V → Ty)
+variable (ok : V → Prop) (sem : Op → List V → V) (inp : Nat → V) (dv : V) (rnd : Nat → List V → V)
+  (tyv : V → Ty)
 
 local notation "𝓔" => ev sem inp dv rnd
 
-/-- every node of the result graph records the type summary of its value -/
+/-- every node of the result graph records the type summary of its value, and evaluates
+    successfully -/
 def TyInv (out : List Node) : Prop :=
-  ∀ k n', out[k]? = some n' → tyv (𝓔 out k) = n'.ty
+  ∀ k n', out[k]? = some n' → tyv (𝓔 out k) = n'.ty ∧ ok (𝓔 out k)
 
-variable {sem inp dv rnd tyv}
+variable {ok sem inp dv rnd tyv}
 
-theorem TyInv.snoc {out : List Node} (h : TyInv sem inp dv rnd tyv out) (n : Node)
-    (hn : tyv (𝓔 (out ++ [n]) out.length) = n.ty) : TyInv sem inp dv rnd tyv (out ++ [n]) := by
+theorem TyInv.snoc {out : List Node} (h : TyInv ok sem inp dv rnd tyv out) (n : Node)
+    (hn : tyv (𝓔 (out ++ [n]) out.length) = n.ty) (hokn : ok (𝓔 (out ++ [n]) out.length)) :
+    TyInv ok sem inp dv rnd tyv (out ++ [n]) := by
   intro k n' hk
   rcases getElem?_snoc_cases hk with hk | ⟨rfl, rfl⟩
   · rw [ev_append _ _ _ _ _ _ _ (lt_of_getElem?_some hk)]; exact h k n' hk
-  · exact hn
+  · exact ⟨hn, hokn⟩
 
-theorem TyInv.tyOf {out : List Node} (h : TyInv sem inp dv rnd tyv out) (k : Nat) (hk : k < out.length) :
+theorem TyInv.tyOf {out : List Node} (h : TyInv ok sem inp dv rnd tyv out) (k : Nat) (hk : k < out.length) :
     tyOf out k = tyv (𝓔 out k) := by
   unfold Optimizer.tyOf
   rw [List.getD_eq_getElem?_getD, List.getElem?_eq_getElem hk]
-  exact (h k out[k] (List.getElem?_eq_getElem hk)).symm
+  exact (h k out[k] (List.getElem?_eq_getElem hk)).1.symm
 
 theorem NoInputExt.ev {out out' : List Node} (h : NoInputExt out out') (k : Nat) (hk : k < out.length) :
     𝓔 out' k = 𝓔 out k := by
@@ -303,20 +306,22 @@ theorem NoInputExt.le {out out' : List Node} (h : NoInputExt out out') : out.len
 
 /- ---------------- `maybe_vector_get` ---------------- -/
 
-theorem vget_spec (L : MetaLaws sem tyv) : ∀ fuel : Nat,
+theorem vget_spec (L : MetaLaws ok sem tyv) : ∀ fuel : Nat,
     (∀ out p index idx r out' vid, Closed out → PNBound out.length p → idx < out.length →
-      TyInv sem inp dv rnd tyv out → DenPN sem tyv (𝓔 out) p → (∃ t, tyv (𝓔 out p.2) = .vec t) →
+      TyInv ok sem inp dv rnd tyv out → DenPN sem tyv (𝓔 out) p → (∃ t, tyv (𝓔 out p.2) = .vec t) →
       𝓔 out idx = sem (.constant vid (some index)) [] →
+      ok (sem .vectorGet [𝓔 out p.2, 𝓔 out idx]) →
       vget fuel out p index idx = some (r, out') →
-      TyInv sem inp dv rnd tyv out' ∧ ∀ e, r = some e →
+      TyInv ok sem inp dv rnd tyv out' ∧ ∀ e, r = some e →
         𝓔 out' e.2 = sem .vectorGet [𝓔 out p.2, 𝓔 out idx] ∧ DenPN sem tyv (𝓔 out') e) ∧
     (∀ out vecs index idx acc r out' vid, Closed out → (∀ v ∈ vecs, PNBound out.length v) →
-      (∀ a ∈ acc, PNBound out.length a) → idx < out.length → TyInv sem inp dv rnd tyv out →
+      (∀ a ∈ acc, PNBound out.length a) → idx < out.length → TyInv ok sem inp dv rnd tyv out →
       (∀ v ∈ vecs, DenPN sem tyv (𝓔 out) v) → (∀ a ∈ acc, DenPN sem tyv (𝓔 out) a) →
       (∀ v ∈ vecs, ∃ t, tyv (𝓔 out v.2) = .vec t) →
       𝓔 out idx = sem (.constant vid (some index)) [] →
+      (∀ v ∈ vecs, ok (sem .vectorGet [𝓔 out v.2, 𝓔 out idx])) →
       vgetAll fuel out vecs index idx acc = some (r, out') →
-      TyInv sem inp dv rnd tyv out' ∧ ∀ sl, r = some sl →
+      TyInv ok sem inp dv rnd tyv out' ∧ ∀ sl, r = some sl →
         sl.map (fun x => 𝓔 out' x.2) = acc.map (fun x => 𝓔 out x.2) ++
           vecs.map (fun v => sem .vectorGet [𝓔 out v.2, 𝓔 out idx]) ∧
         ∀ a ∈ sl, DenPN sem tyv (𝓔 out') a) := by
@@ -324,11 +329,11 @@ theorem vget_spec (L : MetaLaws sem tyv) : ∀ fuel : Nat,
   induction fuel with
   | zero =>
     constructor
-    · intro out p index idx r out' vid _ _ _ _ _ _ _ h; simp [vget] at h
-    · intro out vecs index idx acc r out' vid _ _ _ _ _ _ _ _ _ h; simp [vgetAll] at h
+    · intro out p index idx r out' vid _ _ _ _ _ _ _ _ h; simp [vget] at h
+    · intro out vecs index idx acc r out' vid _ _ _ _ _ _ _ _ _ _ h; simp [vgetAll] at h
   | succ f ih =>
     constructor
-    · intro out p index idx r out' vid hc hp hidx hty hden hvec hcv h
+    · intro out p index idx r out' vid hc hp hidx hty hden hvec hcv hok h
       have hp1 := hp.1
       have hp2 := hp.2
       have hb := (vget_bound (f + 1)).1 _ _ _ _ _ _ hc hp hidx h
@@ -348,7 +353,8 @@ theorem vget_spec (L : MetaLaws sem tyv) : ∀ fuel : Nat,
           have hee : es[index] = e := by
             have := List.getElem?_eq_getElem hlt; rw [he] at this; exact (Option.some.inj this).symm
           refine ⟨?_, hch e (List.mem_of_getElem? he)⟩
-          rw [hv, hcv, L.vectorGet t _ vid index (by simpa using hlt), List.getElem_map, hee]
+          rw [hv, hcv] at hok ⊢
+          rw [L.vectorGet t _ vid index (by simpa using hlt) hok, List.getElem_map, hee]
         · cases h
       · -- array_to_vector
         rename_i arr heq
@@ -356,7 +362,9 @@ theorem vget_spec (L : MetaLaws sem tyv) : ∀ fuel : Nat,
         have hv := hden.a2v_inv
         have harr : arr < out.length := by cases hp1 with | a2v _ h => exact h
         have hta := hty.tyOf arr harr
-        have hlaw := L.a2vGet (𝓔 out arr) vid index
+        have hok' : ok (sem .vectorGet [sem .arrayToVector [𝓔 out arr], sem (.constant vid (some index)) []]) := by
+          rw [← hv, ← hcv]; exact hok
+        have hlaw := L.a2vGet (𝓔 out arr) vid index hok'
         split at h
         · rename_i st hcase
           simp at h; obtain ⟨rfl, rfl⟩ := h
@@ -364,8 +372,11 @@ theorem vget_spec (L : MetaLaws sem tyv) : ∀ fuel : Nat,
           have hval : 𝓔 (out ++ [mkNode (.get index) [arr] (.arr 0 st)]) out.length =
               sem (.get index) [𝓔 out arr] := by
             rw [ev_mk _ _ _ _ _ _ _ _ rfl rfl]; rfl
-          refine ⟨hty.snoc _ ?_, fun e he => ?_⟩
-          · rw [hval]; exact L.ty_get _ _ _ hcase
+          have hokn : ok (sem (.get index) [𝓔 out arr]) := by
+            have := hok'
+            rw [hlaw, hcase] at this; exact this
+          refine ⟨hty.snoc _ ?_ (by rw [hval]; exact hokn), fun e he => ?_⟩
+          · rw [hval]; exact L.ty_get _ _ _ hcase hokn
           · cases he
             refine ⟨?_, .unknown _⟩
             rw [hval, hv, hcv, hlaw, hcase]
@@ -376,16 +387,19 @@ theorem vget_spec (L : MetaLaws sem tyv) : ∀ fuel : Nat,
           have hval : 𝓔 (out ++ [mkNode (.getSlice index) [arr] (.arr (nd - 1) st)]) out.length =
               sem (.getSlice index) [𝓔 out arr] := by
             rw [ev_mk _ _ _ _ _ _ _ _ rfl rfl]; rfl
-          refine ⟨hty.snoc _ ?_, fun e he => ?_⟩
-          · rw [hval, L.ty_getSlice, hcase]; rfl
-          · cases he
-            refine ⟨?_, .unknown _⟩
-            rw [hval, hv, hcv, hlaw, hcase]
+          have hgs : sem .vectorGet [sem .arrayToVector [𝓔 out arr], sem (.constant vid (some index)) []] =
+              sem (.getSlice index) [𝓔 out arr] := by
+            rw [hlaw, hcase]
             split
             · rename_i st' hh
               cases hh
               exact absurd rfl hne
             · rfl
+          refine ⟨hty.snoc _ ?_ (by rw [hval, ← hgs]; exact hok'), fun e he => ?_⟩
+          · rw [hval, L.ty_getSlice _ _ (by rw [← hgs]; exact hok'), hcase]; rfl
+          · cases he
+            refine ⟨?_, .unknown _⟩
+            rw [hval, hv, hcv, hgs]
         · rename_i hne1 hne2
           simp at h; obtain ⟨rfl, rfl⟩ := h
           have hval : 𝓔 (out ++ [mkNode (.getSlice index) [arr] .other]) out.length =
@@ -394,25 +408,28 @@ theorem vget_spec (L : MetaLaws sem tyv) : ∀ fuel : Nat,
           have hna : ∀ nd st, tyv (𝓔 out arr) ≠ .arr nd st := by
             intro nd st hh
             exact hne2 nd st (hta.trans hh)
-          refine ⟨hty.snoc _ ?_, fun e he => ?_⟩
-          · rw [hval, L.ty_getSlice]
+          have hgs : sem .vectorGet [sem .arrayToVector [𝓔 out arr], sem (.constant vid (some index)) []] =
+              sem (.getSlice index) [𝓔 out arr] := by
+            rw [hlaw]
+            split
+            · rename_i st hh; exact absurd hh (hna 1 st)
+            · rfl
+          refine ⟨hty.snoc _ ?_ (by rw [hval, ← hgs]; exact hok'), fun e he => ?_⟩
+          · rw [hval, L.ty_getSlice _ _ (by rw [← hgs]; exact hok')]
             split
             · rename_i nd st hh; exact absurd hh (hna nd st)
             · rfl
           · cases he
             refine ⟨?_, .unknown _⟩
-            rw [hval, hv, hcv, hlaw]
-            split
-            · rename_i st hh; exact absurd hh (hna 1 st)
-            · rfl
+            rw [hval, hv, hcv, hgs]
       · -- unknown
         simp at h; obtain ⟨rfl, rfl⟩ := h
         have hval : 𝓔 (out ++ [mkNode .vectorGet [p.2, idx] (elemTy (tyOf out p.2))]) out.length =
             sem .vectorGet [𝓔 out p.2, 𝓔 out idx] := by
           rw [ev_mk _ _ _ _ _ _ _ _ rfl rfl]; rfl
-        refine ⟨hty.snoc _ ?_, fun e he => ?_⟩
+        refine ⟨hty.snoc _ ?_ (by rw [hval]; exact hok), fun e he => ?_⟩
         · obtain ⟨t, ht⟩ := hvec
-          rw [hval, L.ty_vectorGet _ _ t ht, hty.tyOf p.2 hp2, ht]; rfl
+          rw [hval, L.ty_vectorGet _ _ t ht hok, hty.tyOf p.2 hp2, ht]; rfl
         · cases he
           exact ⟨hval, .unknown _⟩
       · -- zip
@@ -421,15 +438,22 @@ theorem vget_spec (L : MetaLaws sem tyv) : ∀ fuel : Nat,
         obtain ⟨hv, hch, hcv'⟩ := hden.zip_inv
         have hvb : ∀ v ∈ vecs, PNBound out.length v := by
           cases hp1 with | zip _ h1 h2 => exact fun v hv => ⟨h1 v hv, h2 v hv⟩
+        have hzl := L.zipGet (vecs.map fun x => 𝓔 out x.2) (𝓔 out idx) (by rw [← hv]; exact hok)
+        have hokc : ∀ v ∈ vecs, ok (sem .vectorGet [𝓔 out v.2, 𝓔 out idx]) := by
+          intro v hvm
+          have := L.ok_createTuple _ (by rw [← hzl, ← hv]; exact hok)
+          exact this _ (by
+            rw [List.map_map]
+            exact List.mem_map_of_mem (f := (fun v => sem .vectorGet [v, 𝓔 out idx]) ∘ fun x => 𝓔 out x.2) hvm)
         split at h
         · cases h
         · rename_i out1 hv1
           simp at h; obtain ⟨rfl, rfl⟩ := h
-          obtain ⟨h1, _⟩ := ih.2 _ _ _ _ _ _ _ vid hc hvb (by simp) hidx hty hch (by simp) hcv' hcv hv1
+          obtain ⟨h1, _⟩ := ih.2 _ _ _ _ _ _ _ vid hc hvb (by simp) hidx hty hch (by simp) hcv' hcv hokc hv1
           exact ⟨h1, fun e he => by cases he⟩
         · rename_i sl out1 hv1
           simp at h; obtain ⟨rfl, rfl⟩ := h
-          obtain ⟨h1, h2⟩ := ih.2 _ _ _ _ _ _ _ vid hc hvb (by simp) hidx hty hch (by simp) hcv' hcv hv1
+          obtain ⟨h1, h2⟩ := ih.2 _ _ _ _ _ _ _ vid hc hvb (by simp) hidx hty hch (by simp) hcv' hcv hokc hv1
           obtain ⟨hmap, hsl⟩ := h2 sl rfl
           obtain ⟨_, _, hslb⟩ := (vget_bound f).2 _ _ _ _ _ _ _ hc hvb (by simp) hidx hv1
           have hslb := hslb sl rfl
@@ -439,13 +463,15 @@ theorem vget_spec (L : MetaLaws sem tyv) : ∀ fuel : Nat,
           have hag : ∀ k, k < out1.length →
               𝓔 (out1 ++ [mkNode .createTuple (sl.map (·.2)) .other]) k = 𝓔 out1 k :=
             fun k hk => ev_append _ _ _ _ _ _ _ hk
-          refine ⟨h1.snoc _ ?_, fun e he => ?_⟩
+          have hnv : 𝓔 (out1 ++ [mkNode .createTuple (sl.map (·.2)) .other]) out1.length =
+              sem .vectorGet [𝓔 out p.2, 𝓔 out idx] := by
+            rw [hval, hmap, hv, hzl, List.map_map]
+            rfl
+          refine ⟨h1.snoc _ ?_ (by rw [hnv]; exact hok), fun e he => ?_⟩
           · rw [hval]; exact L.ty_createTuple _
           · cases he
             refine ⟨?_, ?_⟩
-            · show 𝓔 (out1 ++ [mkNode .createTuple (sl.map (·.2)) .other]) out1.length = _
-              rw [hval, hmap, hv, L.zipGet, List.map_map]
-              rfl
+            · exact hnv
             · show Den sem tyv _ (.tuple sl) (𝓔 (out1 ++ [mkNode .createTuple (sl.map (·.2)) .other]) out1.length)
               rw [hval]
               have : (sl.map fun x => 𝓔 out1 x.2) =
@@ -455,7 +481,7 @@ theorem vget_spec (L : MetaLaws sem tyv) : ∀ fuel : Nat,
               exact .tuple sl fun x hx => (hsl x hx).mono hag (hslb x hx)
       · simp at h; obtain ⟨rfl, rfl⟩ := h
         exact ⟨hty, fun e he => by cases he⟩
-    · intro out vecs index idx acc r out' vid hc hvb hab hidx hty hvd had hvt hcv h
+    · intro out vecs index idx acc r out' vid hc hvb hab hidx hty hvd had hvt hcv hokv h
       unfold vgetAll at h
       split at h
       · simp at h; obtain ⟨rfl, rfl⟩ := h
@@ -466,11 +492,11 @@ theorem vget_spec (L : MetaLaws sem tyv) : ∀ fuel : Nat,
         · rename_i out1 hv1
           simp at h; obtain ⟨rfl, rfl⟩ := h
           obtain ⟨h1, _⟩ := ih.1 _ _ _ _ _ _ vid hc (hvb v (by simp)) hidx hty (hvd v (by simp))
-            (hvt v (by simp)) hcv hv1
+            (hvt v (by simp)) hcv (hokv v (by simp)) hv1
           exact ⟨h1, fun sl hsl => by cases hsl⟩
         · rename_i s out1 hv1
           obtain ⟨h1, h2⟩ := ih.1 _ _ _ _ _ _ vid hc (hvb v (by simp)) hidx hty (hvd v (by simp))
-            (hvt v (by simp)) hcv hv1
+            (hvt v (by simp)) hcv (hokv v (by simp)) hv1
           obtain ⟨hs1, hs2⟩ := h2 s rfl
           obtain ⟨hc1, hle, hsb⟩ := (vget_bound f).1 _ _ _ _ _ _ hc (hvb v (by simp)) hidx hv1
           have hext := (vget_ext f).1 _ _ _ _ _ _ hv1
@@ -488,7 +514,8 @@ theorem vget_spec (L : MetaLaws sem tyv) : ∀ fuel : Nat,
               · exact (had a haa).mono hag (hab a haa)
               · simp at haa; subst haa; exact hs2)
             (fun x hx => by rw [hag x.2 (hvb x (by simp [hx])).2]; exact hvt x (by simp [hx]))
-            (by rw [hag idx hidx]; exact hcv) h
+            (by rw [hag idx hidx]; exact hcv)
+            (fun x hx => by rw [hag x.2 (hvb x (by simp [hx])).2, hag idx hidx]; exact hokv x (by simp [hx])) h
           refine ⟨h3, fun sl hsl => ?_⟩
           obtain ⟨h5, h6⟩ := h4 sl hsl
           refine ⟨?_, h6⟩
@@ -521,16 +548,16 @@ theorem namedGet_spec (nm : Nat) : ∀ (es : List (Nat × PN)) (e : PN), namedGe
       · rename_i ha; cases h; subst ha; exact ⟨0, by simp⟩
       · cases h
 
-theorem applyMeta_spec (L : MetaLaws sem tyv) (fuel : Nat) (out : List Node) (op : Op) (pds : List PN)
-    (r : Option PN) (out' : List Node) (SI : V)
-    (hc : Closed out) (hty : TyInv sem inp dv rnd tyv out)
+theorem applyMeta_spec (L : MetaLaws ok sem tyv) (fuel : Nat) (out : List Node) (op : Op) (pds : List PN)
+    (r : Option PN) (out' : List Node) (SI : V) (hokSI : ok SI)
+    (hc : Closed out) (hty : TyInv ok sem inp dv rnd tyv out)
     (hb : ∀ d ∈ pds, PNBound out.length d) (hden : ∀ d ∈ pds, DenPN sem tyv (𝓔 out) d)
     (hSI : op.isInput = false → op.isRandom = false → SI = sem op (pds.map fun d => 𝓔 out d.2))
     (hvg : op = .vectorGet → ∀ d, pds.head? = some d → ∃ t, tyv (𝓔 out d.2) = .vec t)
     (h : applyMeta fuel out op pds = some (r, out')) :
-    TyInv sem inp dv rnd tyv out' ∧ ∀ e, r = some e → 𝓔 out' e.2 = SI ∧ DenPN sem tyv (𝓔 out') e := by
+    TyInv ok sem inp dv rnd tyv out' ∧ ∀ e, r = some e → 𝓔 out' e.2 = SI ∧ DenPN sem tyv (𝓔 out') e := by
   have triv : ∀ {r : Option PN} {out' : List Node}, some ((none : Option PN), out) = some (r, out') →
-      TyInv sem inp dv rnd tyv out' ∧ ∀ e, r = some e → 𝓔 out' e.2 = SI ∧ DenPN sem tyv (𝓔 out') e := by
+      TyInv ok sem inp dv rnd tyv out' ∧ ∀ e, r = some e → 𝓔 out' e.2 = SI ∧ DenPN sem tyv (𝓔 out') e := by
     intro r out' h
     simp at h; obtain ⟨rfl, rfl⟩ := h
     exact ⟨hty, fun e he => by cases he⟩
@@ -557,8 +584,15 @@ theorem applyMeta_spec (L : MetaLaws sem tyv) (fuel : Nat) (out : List Node) (op
         refine ⟨?_, hch _ (List.mem_of_getElem? hj)⟩
         have hnm : (es.map (·.1))[j]! = nm := by
           rw [List.getElem!_eq_getElem?_getD, List.getElem?_map, hj]; rfl
+        have hokL : ok (sem (.namedTupleGet nm) [sem (.createNamedTuple (es.map (·.1)))
+            (es.map fun x => 𝓔 out x.2.2)]) := by
+          have := hokSI
+          rw [hSI'] at this
+          simp only [List.map_cons, List.map_nil] at this
+          rw [hv] at this
+          exact this
         have := L.namedGet (es.map (·.1)) (es.map fun x => 𝓔 out x.2.2) j (by simpa using hjl)
-          (by simp) hnd
+          (by simp) hnd (by rw [hnm]; exact hokL)
         rw [hnm, List.getElem_map, hej] at this
         rw [hSI']
         simp only [List.map_cons, List.map_nil]
@@ -584,7 +618,13 @@ theorem applyMeta_spec (L : MetaLaws sem tyv) (fuel : Nat) (out : List Node) (op
         have hej : es[j] = e := by
           have := List.getElem?_eq_getElem hjl; rw [he] at this; exact (Option.some.inj this).symm
         refine ⟨?_, hch _ (List.mem_of_getElem? he)⟩
-        have := L.tupleGet (es.map fun x => 𝓔 out x.2) j (by simpa using hjl)
+        have hokL : ok (sem (.tupleGet j) [sem .createTuple (es.map fun x => 𝓔 out x.2)]) := by
+          have := hokSI
+          rw [hSI'] at this
+          simp only [List.map_cons, List.map_nil] at this
+          rw [hv] at this
+          exact this
+        have := L.tupleGet (es.map fun x => 𝓔 out x.2) j (by simpa using hjl) hokL
         rw [List.getElem_map, hej] at this
         rw [hSI']
         simp only [List.map_cons, List.map_nil]
@@ -602,7 +642,10 @@ theorem applyMeta_spec (L : MetaLaws sem tyv) (fuel : Nat) (out : List Node) (op
       rw [heq] at hdi
       obtain ⟨vid, hvid⟩ := hdi.number_inv
       obtain ⟨h1, h2⟩ := (vget_spec L fuel).1 _ _ _ _ _ _ vid hc (hb v (by simp)) (hb i (by simp)).2 hty
-        (hden v (by simp)) (hvg rfl v rfl) hvid h
+        (hden v (by simp)) (hvg rfl v rfl) hvid (by
+          have := hokSI
+          rw [hSI'] at this
+          exact this) h
       refine ⟨h1, fun e he => ?_⟩
       obtain ⟨h3, h4⟩ := h2 e he
       refine ⟨?_, h4⟩
@@ -690,9 +733,9 @@ theorem mem_filterMap_idx {p : PN} {mds : List (Option PN)} (h : p ∈ mds.filte
     simp at ha'; subst ha'
     exact List.mem_iff_getElem?.mp ha
 
-theorem metaR_spec (L : MetaLaws sem tyv) (fuel : Nat) (out : List Node) (simple : Nat) (op : Op)
+theorem metaR_spec (L : MetaLaws ok sem tyv) (fuel : Nat) (out : List Node) (simple : Nat) (op : Op)
     (deps : List Nat) (metaDeps : List (Option PN)) (mn : Option PN) (out' : List Node) (SI : V)
-    (hc : Closed out) (hty : TyInv sem inp dv rnd tyv out)
+    (hokSI : ok SI) (hc : Closed out) (hty : TyInv ok sem inp dv rnd tyv out)
     (hs : 𝓔 out simple = SI)
     (hSI : op.isInput = false → op.isRandom = false → SI = sem op (deps.map (𝓔 out)))
     (hlen : metaDeps.length = deps.length)
@@ -702,15 +745,15 @@ theorem metaR_spec (L : MetaLaws sem tyv) (fuel : Nat) (out : List Node) (simple
     (hvg : op = .vectorGet → ∀ d, deps.head? = some d → ∃ t, tyv (𝓔 out d) = .vec t)
     (hzp : op = .zip → ∀ d ∈ deps, ∃ t, tyv (𝓔 out d) = .vec t)
     (h : metaR fuel out simple op deps metaDeps = some (mn, out')) :
-    TyInv sem inp dv rnd tyv out' ∧ ∀ p, mn = some p → 𝓔 out' p.2 = SI ∧ DenPN sem tyv (𝓔 out') p := by
+    TyInv ok sem inp dv rnd tyv out' ∧ ∀ p, mn = some p → 𝓔 out' p.2 = SI ∧ DenPN sem tyv (𝓔 out') p := by
   have fin : ∀ (e : PN), (𝓔 out e.2 = SI ∧ DenPN sem tyv (𝓔 out) e) →
       ∀ {mn : Option PN} {out' : List Node}, some (some e, out) = some (mn, out') →
-      TyInv sem inp dv rnd tyv out' ∧ ∀ p, mn = some p → 𝓔 out' p.2 = SI ∧ DenPN sem tyv (𝓔 out') p := by
+      TyInv ok sem inp dv rnd tyv out' ∧ ∀ p, mn = some p → 𝓔 out' p.2 = SI ∧ DenPN sem tyv (𝓔 out') p := by
     intro e he mn out' h
     simp at h; obtain ⟨rfl, rfl⟩ := h
     exact ⟨hty, fun p hp => by cases hp; exact he⟩
   have fin0 : ∀ {mn : Option PN} {out' : List Node}, some ((none : Option PN), out) = some (mn, out') →
-      TyInv sem inp dv rnd tyv out' ∧ ∀ p, mn = some p → 𝓔 out' p.2 = SI ∧ DenPN sem tyv (𝓔 out') p := by
+      TyInv ok sem inp dv rnd tyv out' ∧ ∀ p, mn = some p → 𝓔 out' p.2 = SI ∧ DenPN sem tyv (𝓔 out') p := by
     intro mn out' h
     simp at h; obtain ⟨rfl, rfl⟩ := h
     exact ⟨hty, fun p hp => by cases hp⟩
@@ -790,9 +833,15 @@ theorem metaR_spec (L : MetaLaws sem tyv) (fuel : Nat) (out : List Node) (simple
     · rename_i bin x
       obtain ⟨h1, h2, _⟩ := hmd 0 d (.b2a bin, x) (by rw [hd1]; rfl) (by rw [hm1]; rfl)
       obtain ⟨st, hst⟩ := Den.b2a_inv h2
+      have hokL : ok (sem .a2b [sem (.b2a st) [𝓔 out bin]]) := by
+        have := hokSI
+        rw [hSI', ← h1] at this
+        simp only at hst
+        rw [hst] at this
+        exact this
       rw [hSI', ← h1]
       simp only at hst
-      rw [hst, L.a2b_b2a]
+      rw [hst, L.a2b_b2a _ _ hokL]
     · exact hs
   · -- b2a
     rename_i st'
@@ -826,7 +875,12 @@ theorem metaR_spec (L : MetaLaws sem tyv) (fuel : Nat) (out : List Node) (simple
         split
         · rename_i hst
           rw [hty.tyOf ar har] at hcase
-          rw [hSI', ← h1, hv, hst, L.b2a_a2b _ nd s hcase]
+          have hokL : ok (sem (.b2a s) [sem .a2b [𝓔 out ar]]) := by
+            have := hokSI
+            rw [hSI', ← h1, hv, hst] at this
+            exact this
+          rw [hSI', ← h1, hv, hst,
+            L.b2a_a2b _ nd s hcase (hty ar _ (List.getElem?_eq_getElem har)).2 hokL]
         · exact hs
       · exact hs
     · exact hs
@@ -875,7 +929,7 @@ theorem metaR_spec (L : MetaLaws sem tyv) (fuel : Nat) (out : List Node) (simple
     rw [← hde]; exact hzp rfl d hd
   · split at h
     · rename_i hall
-      refine applyMeta_spec L fuel out _ (metaDeps.filterMap id) mn out' SI hc hty ?_ ?_ ?_ ?_ h
+      refine applyMeta_spec L fuel out _ (metaDeps.filterMap id) mn out' SI hokSI hc hty ?_ ?_ ?_ ?_ h
       · intro p hp
         obtain ⟨j, hj⟩ := mem_filterMap_idx hp
         have hjl : j < deps.length := by rw [← hlen]; exact lt_of_getElem?_some hj
@@ -936,8 +990,8 @@ theorem countIn_eq_inputsOf (l : List Node) : countIn l = (inputsOf l).length :=
 /- ---------------- the loop invariant ---------------- -/
 
 section
-variable (sem : Op → List V → V) (inp : Nat → V) (dv : V) (rO rN : Nat → List V → V) (tyv : V → Ty)
-  (src : List Node)
+variable (ok : V → Prop) (sem : Op → List V → V) (inp : Nat → V) (dv : V) (rO rN : Nat → List V → V)
+  (tyv : V → Ty) (src : List Node)
 
 local notation "𝓔" => ev sem inp dv rN
 local notation "𝓢" => ev sem inp dv rO src
@@ -952,21 +1006,22 @@ structure VInv (pre : List Node) (st : MSt) : Prop where
   cnt : countIn st.out = countIn pre
   vals : ∀ i k, Maps st.m i k → 𝓔 st.out k = 𝓢 i
   den : ∀ (i : Nat) (p : PN), st.px[i]? = some (some p) → Maps st.m i p.2 ∧ DenPN sem tyv (𝓔 st.out) p
-  ty : TyInv sem inp dv rN tyv st.out
+  ty : TyInv ok sem inp dv rN tyv st.out
 
-variable {sem inp dv rO rN tyv src}
+variable {ok sem inp dv rO rN tyv src}
 
 theorem maps_fun {m : Mapping} {i k k' : Nat} (h : Maps m i k) (h' : Maps m i k') : k = k' := by
   unfold Maps at h h'; rw [h] at h'; simpa using h'
 
-theorem metaStep_vinv (L : MetaLaws sem tyv) (hsrc : Closed src) (htyS : TyOK sem inp dv rO tyv src)
+theorem metaStep_vinv (L : MetaLaws ok sem tyv) (hsrc : Closed src)
+    (htyS : TyOK sem inp dv rO tyv src) (hokS : ValOK ok sem inp dv rO src)
     (fuel : Nat) (pre rest : List Node) (n : Node) (hsplit : src = pre ++ n :: rest) (st st' : MSt)
-    (I : VInv sem inp dv rO rN tyv src pre st) (hwf : metaWF n = true)
+    (I : VInv ok sem inp dv rO rN tyv src pre st) (hwf : metaWF n = true)
     (hrand : n.op.isRandom = true → rN st.out.length = rO pre.length)
     (hvo : (n.op = .vectorGet → ∀ d, n.deps.head? = some d → ∃ t, tyv (𝓢 d) = .vec t) ∧
       (n.op = .zip → ∀ d ∈ n.deps, ∃ t, tyv (𝓢 d) = .vec t))
     (h : metaStep fuel (some st) n = some st') :
-    VInv sem inp dv rO rN tyv src (pre ++ [n]) st' := by
+    VInv ok sem inp dv rO rN tyv src (pre ++ [n]) st' := by
   have hn : src[pre.length]? = some n := by rw [hsplit]; simp
   have hd : ∀ d ∈ n.deps, d < pre.length := closed_deps_lt (by rw [← hsplit]; exact hsrc)
   have hdm : ∀ d ∈ n.deps, d < st.m.length := by rw [I.lenm]; exact hd
@@ -1012,8 +1067,8 @@ theorem metaStep_vinv (L : MetaLaws sem tyv) (hsrc : Closed src) (htyS : TyOK se
     exact (hlook d0 hd0).1
   have hag1 : ∀ k, k < st.out.length → 𝓔 (st.out ++ [simpleNode]) k = 𝓔 st.out k :=
     fun k hk => ev_append _ _ _ _ _ _ _ hk
-  have hty1 : TyInv sem inp dv rN tyv (st.out ++ [simpleNode]) := by
-    apply I.ty.snoc
+  have hty1 : TyInv ok sem inp dv rN tyv (st.out ++ [simpleNode]) := by
+    refine I.ty.snoc _ ?_ (by rw [hs]; exact hokS pre.length (lt_of_getElem?_some hn))
     rw [hs, ← hsn]
     exact htyS pre.length n hn
   have hSI : n.op.isInput = false → n.op.isRandom = false →
@@ -1074,7 +1129,7 @@ theorem metaStep_vinv (L : MetaLaws sem tyv) (hsrc : Closed src) (htyS : TyOK se
     rw [hR] at h
     simp only [Option.some.injEq] at h
     obtain ⟨hty', hmn⟩ := metaR_spec (inp := inp) (dv := dv) (rnd := rN) L fuel _ _ _ _ _ mn out'
-      (𝓢 pre.length) hc1 hty1 hs hSI (by simp) hmd (by simpa [metaWF] using hwf) hvg' hzp' hR
+      (𝓢 pre.length) (hokS pre.length (lt_of_getElem?_some hn)) hc1 hty1 hs hSI (by simp) hmd (by simpa [metaWF] using hwf) hvg' hzp' hR
     have hext := metaR_ext _ _ _ _ _ _ _ _ hR
     have hag' : ∀ k, k < st.out.length → 𝓔 out' k = 𝓔 st.out k := by
       intro k hk
@@ -1139,10 +1194,11 @@ theorem metaFold_m (fuel : Nat) : ∀ (l : List Node) (st st' : MSt),
       obtain ⟨r, hr⟩ := ih st1 st' h
       exact ⟨[some x] ++ r, by rw [hr, hx]; simp⟩
 
-theorem metaFold_vinv (L : MetaLaws sem tyv) (hsrc : Closed src) (htyS : TyOK sem inp dv rO tyv src)
+theorem metaFold_vinv (L : MetaLaws ok sem tyv) (hsrc : Closed src)
+    (htyS : TyOK sem inp dv rO tyv src) (hokS : ValOK ok sem inp dv rO src)
     (hwf : MetaWF src) (hvo : VecOK sem inp dv rO tyv src) (fuel : Nat) : ∀ (l pre : List Node) (st st' : MSt), src = pre ++ l →
-    VInv sem inp dv rO rN tyv src pre st → Compat src st'.m rO rN →
-    l.foldl (metaStep fuel) (some st) = some st' → VInv sem inp dv rO rN tyv src src st' := by
+    VInv ok sem inp dv rO rN tyv src pre st → Compat src st'.m rO rN →
+    l.foldl (metaStep fuel) (some st) = some st' → VInv ok sem inp dv rO rN tyv src src st' := by
   intro l
   induction l with
   | nil => intro pre st st' hs I _ h; simp at h hs; subst h; subst hs; exact I
@@ -1164,29 +1220,30 @@ theorem metaFold_vinv (L : MetaLaws sem tyv) (hsrc : Closed src) (htyS : TyOK se
         unfold Maps
         rw [hr', hx, ← I.lenm]
         simp
-      have I1 := metaStep_vinv L hsrc htyS fuel pre l n hs st st1 I
+      have I1 := metaStep_vinv L hsrc htyS hokS fuel pre l n hs st st1 I
         (hwf n (by rw [hs]; simp)) hrand (hvo pre.length n hn) hst
       exact ih (pre ++ [n]) st1 st' (by rw [hs]; simp) I1 hcomp h
 
 /-- value preservation of the meta pass -/
-theorem metaOps_value (L : MetaLaws sem tyv) (g g' : Graph) (m : Mapping) (hc : Closed g.nodes)
+theorem metaOps_value (L : MetaLaws ok sem tyv) (g g' : Graph) (m : Mapping)
+    (hc : Closed g.nodes)
     (hwf : MetaWF g.nodes) (h : metaOps g = some (g', m))
-    (htyS : TyOK sem inp dv rO tyv g.nodes) (hvo : VecOK sem inp dv rO tyv g.nodes)
+    (htyS : TyOK sem inp dv rO tyv g.nodes) (hokS : ValOK ok sem inp dv rO g.nodes) (hvo : VecOK sem inp dv rO tyv g.nodes)
     (hcomp : Compat g.nodes m rO rN) :
     (∀ i k, Maps m i k →
       (eval sem inp dv rN g'.nodes).getD k dv = (eval sem inp dv rO g.nodes).getD i dv) ∧
-    TyOK sem inp dv rN tyv g'.nodes := by
+    TyOK sem inp dv rN tyv g'.nodes ∧ ValOK ok sem inp dv rN g'.nodes := by
   unfold metaOps at h
   split at h
   · cases h
   · rename_i st hs
     simp only [Option.some.injEq, Prod.mk.injEq] at h
     obtain ⟨rfl, rfl⟩ := h
-    have I0 : VInv sem inp dv rO rN tyv g.nodes [] ⟨[], [], []⟩ :=
+    have I0 : VInv ok sem inp dv rO rN tyv g.nodes [] ⟨[], [], []⟩ :=
       ⟨rfl, rfl, ⟨by intro k n h; simp at h, by intro i h; simp at h, by intro i p h; simp at h⟩, rfl,
        by intro i k h; simp [Maps] at h, by intro i p h; simp at h, by intro k n' h; simp at h⟩
-    have I := metaFold_vinv L hc htyS hwf hvo (metaFuel g) g.nodes [] ⟨[], [], []⟩ st (by simp) I0 hcomp hs
-    exact ⟨I.vals, I.ty⟩
+    have I := metaFold_vinv L hc htyS hokS hwf hvo (metaFuel g) g.nodes [] ⟨[], [], []⟩ st (by simp) I0 hcomp hs
+    exact ⟨I.vals, fun i n hn => (I.ty i n hn).1, fun i hi => (I.ty i _ (List.getElem?_eq_getElem hi)).2⟩
 
 end
 
@@ -1525,5 +1582,21 @@ theorem constants_keeps (oracle : Nat → Nat × Option Nat) (g : Graph) (hc : C
         obtain ⟨t, ht⟩ := (hvo i g.nodes[i] hn).2 (by rw [← hop]; exact hop') d0 hd0
         exact ⟨t, (congrArg tyv (hdv d0 hd0)).trans ht⟩
     · refine ⟨fun hop' => ?_, fun hop' => ?_⟩ <;> (rw [hop'] at hconst; cases hconst)
+
+/-- the constants pass preserves "every node evaluates successfully": every node of its result is
+    the image of a source node with the same value -/
+theorem constants_valok (oracle : Nat → Nat × Option Nat) (g : Graph) (hc : Closed g.nodes)
+    (hcw : ConstWF g.nodes) (ok : V → Prop)
+    (sem : Op → List V → V) (inp : Nat → V) (dv : V) (r0 r1 : Nat → List V → V)
+    (hok : ValOK ok sem inp dv r0 g.nodes)
+    (hval : ∀ i k, Maps (constants oracle g).2 i k →
+      (eval sem inp dv r1 (constants oracle g).1.nodes).getD k dv =
+        (eval sem inp dv r0 g.nodes).getD i dv) :
+    ValOK ok sem inp dv r1 (constants oracle g).1.nodes := by
+  have C := constants_inv oracle g hc hcw
+  intro k hk
+  obtain ⟨i, hi⟩ := C.tr.surj k hk
+  rw [hval i k hi]
+  exact hok i (C.tr.ref.bound i k hi).1
 
 end CCV.Optimizer
